@@ -120,6 +120,8 @@ ATTR_CALLS = {
     (None, "judge_if_range"): "call:judge_if_range", (None, "match"): "call:MediaType_match",
     (("os", "path"), "abspath"): "osPath", (("os", "path"), "relpath"): "osPath", (("os", "path"), "join"): "osPath",
 }
+# keyword arguments each standard-library call is declared with (anything else changes what it can raise)
+STD_KEYWORDS = {"parseQsl": ["keep_blank_values"], "quote": ["safe"]}
 URL_COMPONENTS = {"scheme", "netloc", "path", "query", "fragment", "username", "password", "hostname", "port"}
 SELF_ATTRS = {"body": "call:body"}           # `self.body` (a cached property that runs code)
 LENIENT_ERRORS = ("replace", "ignore", "surrogateescape", "surrogatepass", "backslashreplace")
@@ -265,6 +267,13 @@ class Flow:
                             # URL.replace takes keywords only; str.replace takes positional arguments
                             kws = {kw.arg for kw in n.keywords}
                             kind = "call:URL_replace" if (kws and not n.args and kws <= URL_COMPONENTS) else None
+                if kind and not kind.startswith("call:"):
+                    # a standard-library call: its declared raise-set belongs to THIS argument shape.  Keywords
+                    # other than the ones the declaration was written for (parse_qsl(max_num_fields=...),
+                    # int(x, base=...)) make it another site kind, which the pin and the model do not know
+                    kws = sorted(kw.arg or "**" for kw in n.keywords)
+                    if kws != STD_KEYWORDS.get(kind, []) and not kind.startswith(("decode", "encode")):
+                        kind = "%s[%s]" % (kind, ",".join(kws))
                 if kind:
                     self.add(n, kind, chain)
             elif isinstance(n, ast.Attribute) and isinstance(n.value, ast.Name) and n.value.id == "self" \
